@@ -301,6 +301,11 @@ impl<'w, 'r, 'gc> Cb<'w, 'r, 'gc> {
                     }
                     continue;
                 }
+                if o.leaked {
+                    // nothing can be read through this lock any more: the client cannot follow
+                    // its edge (the collector must: C07 / C01 watch the child through the shadow)
+                    continue;
+                }
                 for k in 0..o.kind.n_strong() {
                     match (access::read_strong(any, k), o.strong[k]) {
                         (Some(c), Some(cid)) => stack.push((cid, c)),
@@ -829,6 +834,19 @@ impl<'w, 'r, 'gc> Cb<'w, 'r, 'gc> {
                 }
             }
             Op::BarrierOnly { form, parent, child } => self.op_barrier_only(*form, *parent, *child),
+            Op::LeakGuard { obj } => {
+                let Some(AnyGc::Leaky(g)) = self.map.get(obj).copied().map(access::canon) else { return self.skip() };
+                if self.w.sh.objs.get(obj).is_none_or(|o| o.leaked) {
+                    return self.skip();
+                }
+                // safe code: take the write guard (a backward barrier) and never give it back
+                std::mem::forget(g.borrow_mut(mc));
+                crate::tok::note_leaked_guard();
+                self.w.sh.objs.get_mut(obj).unwrap().leaked = true;
+                self.w.rt[a as usize].leaked_guard = true;
+                self.w.stats.flag("C07.guard-leaked");
+                self.note_mutation();
+            }
             Op::IsDead { holder, slot, weak } => self.op_is_dead(*holder, *slot as usize, *weak),
             Op::Resurrect { holder, slot, weak } => self.op_resurrect(*holder, *slot as usize, *weak),
             Op::Panic => {
@@ -1000,7 +1018,7 @@ impl<'w, 'r, 'gc> Cb<'w, 'r, 'gc> {
             if kind == Kind::SetHolder {
                 strong[0] = Some(id + 1);
             }
-            w.sh.objs.insert(id, Obj { kind, arena: a, strong, weak: vec![None; kind.n_weak()], toks, addr, block, destructed: false, released: false, born_event: ev, lay: None, conv: vec![], drop_faulted: false });
+            w.sh.objs.insert(id, Obj { kind, arena: a, strong, weak: vec![None; kind.n_weak()], toks, addr, block, destructed: false, released: false, born_event: ev, lay: None, conv: vec![], drop_faulted: false, leaked: false });
             w.addr2id.insert(addr, id);
             w.sh.next_id = w.sh.next_id.max(id + 1);
             w.stats.allocs += 1;
@@ -1094,7 +1112,7 @@ impl<'w, 'r, 'gc> Cb<'w, 'r, 'gc> {
                 return;
             }
             self.map.entry(i).or_insert(g);
-            if o.kind == Kind::SetHolder {
+            if o.kind == Kind::SetHolder || o.leaked {
                 continue;
             }
             for k in 0..o.kind.n_strong() {
@@ -1509,7 +1527,7 @@ impl<'w, 'r, 'gc> Cb<'w, 'r, 'gc> {
                 self.viol("H.seam", format!("no allocator block found for the uncached ZstCache allocation {id}"));
             }
             let ev = self.w.ev_index as u32;
-            self.w.sh.objs.insert(id, Obj { kind: Kind::Lay { t: 254, len: 0 }, arena: a, strong: vec![], weak: vec![], toks: vec![], addr, block, destructed: false, released: false, born_event: ev, lay: None, conv: vec![], drop_faulted: false });
+            self.w.sh.objs.insert(id, Obj { kind: Kind::Lay { t: 254, len: 0 }, arena: a, strong: vec![], weak: vec![], toks: vec![], addr, block, destructed: false, released: false, born_event: ev, lay: None, conv: vec![], drop_faulted: false, leaked: false });
             self.w.addr2id.insert(addr, id);
             self.w.sh.next_id = self.w.sh.next_id.max(id + 1);
             self.w.stats.allocs += 1;
@@ -1993,7 +2011,7 @@ impl<'w, 'r, 'gc> Cb<'w, 'r, 'gc> {
                     self.w.tok2obj.insert(*t, first);
                 }
                 let ev = self.w.ev_index as u32;
-                self.w.sh.objs.insert(first, Obj { kind: okind, arena: a, strong: vec![], weak: vec![], toks, addr, block, destructed: false, released: false, born_event: ev, lay: None, conv: vec![], drop_faulted: false });
+                self.w.sh.objs.insert(first, Obj { kind: okind, arena: a, strong: vec![], weak: vec![], toks, addr, block, destructed: false, released: false, born_event: ev, lay: None, conv: vec![], drop_faulted: false, leaked: false });
                 self.w.addr2id.insert(addr, first);
                 self.w.stats.allocs += 1;
                 let rt = &mut self.w.rt[a as usize];
